@@ -358,7 +358,7 @@ pub fn run(ctx: &Ctx) -> (Report, PropertyMeta) {
         ));
         report.merge(r);
     }
-    let n = t.pick(3000, 100_000);
+    let n = t.pick(30_000, 600_000);
     let r = run_random(ctx, "filter", n, 60..=200, gen_filter, filter_outcome);
     report.sections.push(json!({"part": "random histories of length <= 30 for 1..4 subscribers with interleaved publishes (PUB and XPUB)", "cases": n}));
     report.merge(r);
